@@ -162,8 +162,8 @@ def poly(node: ast.AST, env: Optional[Dict[str, ast.AST]] = None, _depth: int = 
                ast.BitOr: "|", ast.BitXor: "^", ast.Pow: "**", ast.MatMult: "@"}.get(type(node.op), "?")
         if opn in ("&", "|", "^"):
             a, b = sorted([str(l), str(r)])
-            return Poly.atom(f"({a}){opn}({b})")
-        return Poly.atom(f"({l}){opn}({r})")
+            return Poly.atom(f"(({a}){opn}({b}))")
+        return Poly.atom(f"(({l}){opn}({r}))")
     if isinstance(node, (ast.Call, ast.Attribute)) and env:
         try:
             key = ast.unparse(node)
